@@ -485,6 +485,9 @@ where
         // Handle `ParseError` and `DoctypeToken`; convert everything else to the local `Token` type.
         let token = match token {
             tokenizer::ParseError(e) => {
+                // A parse error is not a token: it must not consume the "ignore the next
+                // line feed" state set by <pre>, <listing> and <textarea>.
+                self.ignore_lf.set(ignore_lf);
                 self.sink.parse_error(e);
                 return tokenizer::TokenSinkResult::Continue;
             },
